@@ -21,6 +21,41 @@ def suites_data():
     return "---- MODULE SuitesData ----\nEXTENDS TLC\nRegistry ==\n" + " @@\n".join(rows) + "\n====\n"
 
 
+def _stale(job):
+    from harness import runner
+    from harness.tlsrun import suites
+    from observe.pcapng import Observation
+    from wire.capture import segment, tcp_capture
+    from wire.container import pcapng_bytes
+    from wire.l2l4 import mk_flow
+    from wire.tlsconn import TlsConn
+    seed, (ver, code), unsup = job
+    try:
+        a = TlsConn(ver, suites()[code], seed=seed)
+        b = TlsConn(ver, suites()[code], seed=seed + 1, sh_suite_override=unsup)
+        b.app("c", 60)
+        b.app("s", 200)
+        ccs = next(r.idx for r in a.records if r.kind == "CCS")
+        sa = [sg for sg in segment(a, 0) if sg.emit < ccs]           # reset after the ClientKeyExchange: no ChangeCipherSpec captured
+        sb = segment(b, 1)
+        fl = mk_flow(0)
+        cap = tcp_capture([a, b], [fl, fl], order=[0] * len(sa) + [1] * len(sb), isns=[(1000, 9000), (700000, 900000)], seglists=[sa, sb])
+        res = runner.run_inproc(pcapng_bytes(cap.pkts), "\n".join(a.keylog + b.keylog) + "\n")
+    except Exception:
+        import traceback
+        return dict(machinery=traceback.format_exc()[-1500:])
+    bad = []
+    if res.crashed or res.out is None:
+        bad.append("aborted handshake + unsupported code point %04X on one 4-tuple: run aborted: %s" % (unsup, (res.exc or "no output").strip().splitlines()[-1]))
+    else:
+        o = Observation(res.out)
+        n = sum(1 for p in o.packets if p["l4"] == "tcp" and p["payload"])
+        if n:
+            bad.append(f"connection selecting the unsupported code point {unsup:04X} after an aborted {code:04X} handshake on the same 4-tuple: {n} data segments "
+                       f"exported (parameters of another code point were used instead of reporting it unsupported)")
+    return dict(bad=bad, job=[seed, [ver, code], unsup])
+
+
 def run(chk):
     r = tlc.run("Suites", {}, invariants=["WellFormed", "OutsideUnsupported", "Emit"], workers=1, timeout=900,
                 files={"SuitesData.tla": suites_data()})
@@ -139,6 +174,16 @@ def run(chk):
             chk.violation(f"QUIC connection negotiating {res['b']['suite']} while the client lists {res['b']['first']} first: {b_} (the negotiated code point must be the one resolved)",
                           dict(behaviour=res["b"], seed=res["seed"], why=b_))
     chk.extra["quic_negotiated_vs_first_offered_pairs"] = sorted(f"{a}/{b}" for a, b in seen_sf)
+    # "... reported as unsupported rather than guessed", with history: a handshake with a supported non-AEAD suite that is aborted before its
+    # ChangeCipherSpec, followed on the SAME 4-tuple by a connection whose ServerHello selects a code point outside the table -- nothing of
+    # the second connection may be exported (no parameters may be carried over from the first)
+    for res in pool_map(_stale, [(rng.randrange(1 << 30), a, u) for a in ((R.TLS12, 0x003C), (R.TLS12, 0x0005), (R.TLS11, 0x002F), (R.TLS10, 0x000A))
+                                 for u in (0xC07A, 0x00FF, 0x1A1A, 0xC0B4)][:: 2 if quick else 1]):
+        if "machinery" in res:
+            raise MachineryError("harness: " + res["machinery"])
+        chk.evaluations += 1
+        for b_ in res["bad"]:
+            chk.violation(b_, dict(stale=res["job"], why=b_))
     chk.extra["accepted_code_points"] = accepted
     chk.extra["registry_entries"] = len(reg)
     chk.exhaustive = True
